@@ -315,7 +315,11 @@ func (c *call) judge() {
 		if w.spare > 0 {
 			nontrivial = true
 		}
-		rec.Count(fmt.Sprintf("layout.off%d.spare%d", w.off, w.spare), 1)
+		if w.dst {
+			rec.Count("dst.watched", 1) // dst capacities are derived from the needed size, not from the layout table
+		} else {
+			rec.Count(fmt.Sprintf("layout.off%d.spare%d", w.off, w.spare), 1)
+		}
 		// shared arguments (retained keys) are re-synchronised so one write is reported once
 		copy(w.snap, w.arr)
 	}
